@@ -84,7 +84,11 @@ class PolyFunction:
         self.inexact = 0
         self.fmax = Fraction(0)
 
-    def __call__(self, x: Any, **kwargs: Any):
+    def __call__(self, x: Any, scale: int = 1, **kwargs: Any):
+        res = self._evaluate(x)
+        return res * scale if scale != 1 else res
+
+    def _evaluate(self, x: Any):
         x = np.atleast_1d(np.asarray(x))
         if np.iscomplexobj(x):
             z = [(_F(v.real), _F(v.imag)) for v in x]
